@@ -967,6 +967,15 @@ theorem parse_err {dec : Bool} {f : Nat} (hsc : ScaleOk dec f) {y : YangRange} (
         intro x hx
         exact hwi x ((hmem x).mp hx)
 
+/-- parts that tie under `YangRange.Less` have the same mantissas: they denote the same interval and
+differ at most in the sign of a zero bound -/
+theorem rangeLess_tie {f : Nat} (hf : f ≤ 18) {a b : YRange} (ha : PartOk f a) (hb : PartOk f b)
+    (h1 : rangeLess a b = false) (h2 : rangeLess b a = false) : absP a = absP b := by
+  rw [rangeLess_abs hf ha hb, lexLt_false_iff] at h1
+  rw [rangeLess_abs hf hb ha, lexLt_false_iff] at h2
+  unfold LexLe at h1 h2
+  apply Prod.ext <;> omega
+
 /-! ### the built-in ranges are legitimate parents -/
 
 theorem intRange_ok (lo hi : Nat) (hlo : lo < W) (hhi : hi < W) : ParentOk 0 (intRange lo hi) ∧ intRange lo hi ≠ [] := by
